@@ -865,11 +865,12 @@ class InterfaceClass(_InterfaceClassBase):
         if not all:
             return self.__attrs.items()
 
+        # Follow the resolution order (least specific first), so that the
+        # description reported for a name is the same one that ``get()``,
+        # ``__getitem__`` et al. resolve.
         r = {}
-        for base in self.__bases__[::-1]:
-            r.update(dict(base.namesAndDescriptions(all)))
-
-        r.update(self.__attrs)
+        for iface in self.__iro__[::-1]:
+            r.update(iface.namesAndDescriptions())
 
         return r.items()
 
